@@ -136,3 +136,20 @@ def harvested_texts():
     except Exception as e:  # noqa: BLE001
         log(f"[harvest] the repository's tests could not be harvested ({type(e).__name__}: {e}); continuing without them")
     return _HARVEST
+
+
+def code_table(lang, text):
+    """The code tokens of a text, from the RAW Pygments stream (not through codelimit's lex / filter_tokens / Token): every
+    token that is neither a comment nor a blank text token, with the line / column where it starts and just past its end,
+    and its text if it is an identifier.  C05's clauses are judged against this table."""
+    from pygments.token import Comment, Name, Text
+
+    out = []
+    for off, ty, v in lexer_for(lang).get_tokens_unprocessed(text):
+        if ty in Comment or (ty in Text and (v == "" or v.isspace())):
+            continue
+        line = text.count("\n", 0, off) + 1
+        col = off - text.rfind("\n", 0, off)
+        nl = v.count("\n")
+        out.append({"l": line, "c": col, "el": line + nl, "ec": (len(v) - v.rfind("\n")) if nl else col + len(v), "name": v if ty in Name else ""})
+    return out
